@@ -11,6 +11,14 @@ ASSUME = [
     "domain = the property's quantifier: no two sections share a page; a section lies wholly at/above or wholly below the kernel "
     "offset; sections stay clear of the reserved pages, the temporary-mapping page and the recursive window (top-level slot 511); "
     "(address - offset) fits the 40-bit frame field",
+    "input classes generated since the quantifier audit: empty section table, 0..14 and 30-64 sections, empty (size 0) sections "
+    "interleaved, starts at unit offsets 0/1/2048/4095 of a page, sections of 500-1100 pages (more than one last-level table), "
+    "ELF flag words with bits up to 2^63, non-loaded sections overlapping at address 0 below the offset, six kernel offsets, load "
+    "addresses above 4 GiB, early regions of 500-560 pages, refused oversized requests anywhere in the boot history",
+    "classes not covered: a section that straddles the kernel offset or wraps the address space; kernel offsets that are not page "
+    "aligned; sections of >= 2^32 bytes (would need millions of table frames); early regions that were reserved but never mapped "
+    "before vmm.Init (the statement speaks of regions reserved AND mapped; the real code returns ErrInvalidMapping for them and "
+    "the repository's own test pins that)",
     "not constrained (DESIGN 4.3): pages of sections whose allocated flag is clear, permission bits of the carried-over reservations, "
     "the temporary-mapping page, the outcome when a frame allocation fails (a reported success must still be complete)",
     "hardware semantics assumed by the software MMU: 4-level walk, present bit, frame = bits 12-51, writable/user = AND over the "
